@@ -82,6 +82,7 @@ from jax2onnx.converter.conversion_api import (
     InputSpec,
     ShapeDimSpec,
     ShapeTupleSpec,
+    _jax_x64_scope,
     _to_ir_dtype_from_np,
     to_onnx as to_onnx_impl,
 )
@@ -103,14 +104,10 @@ OnnxFunctionDecorator = Callable[[OnnxFunctionTarget], OnnxFunctionTarget]
 
 @contextmanager
 def _temporary_x64(enabled: bool) -> Iterator[None]:
-    prev = jax.config.jax_enable_x64
-    try:
-        if enabled != prev:
-            jax.config.update("jax_enable_x64", enabled)
+    # Scoped switch (see conversion_api._jax_x64_scope): never writes the
+    # process-wide flag, also when called inside a user's jax.enable_x64 block.
+    with _jax_x64_scope(enabled):
         yield
-    finally:
-        if jax.config.jax_enable_x64 != prev:
-            jax.config.update("jax_enable_x64", prev)
 
 
 def _normalize_return_mode(value: str) -> ReturnMode:
